@@ -384,6 +384,36 @@ func TestRetryBudgetPerCommand(t *testing.T) {
 
 var seenCmd int
 
+// TestLongConnection: 200 commands one after the other on one connection and its
+// session (more than any 6-bit or 7-bit counter on the way holds), each with a
+// short outcome script and each held against the contract.
+func TestLongConnection(t *testing.T) {
+	c := hx.Creds{User: "admin", Password: []byte("pw"), Priv: 4, Suite: hx.Suites12()[int(ev.Seed)%12], Seed: uint64(ev.Seed)*37 + 3}
+	w := hx.NewWorldFor(c, true)
+	s, err := w.T.NewV2Session(context.Background(), c.Opts())
+	if err != nil {
+		t.Fatalf("harness: session failed: %v", err)
+	}
+	bs := w.BMC.ActiveSession()
+	scripts := [][]hx.Outcome{{hx.Final}, {hx.Busy, hx.Final}, {hx.FinalCC}, {hx.Garbage, hx.TimeoutCC, hx.Final}, {hx.Final}}
+	for i := 1; i <= 200; i++ {
+		inSession := i%3 != 0
+		var cn conn = w.T
+		var sess *simbmc.Session
+		if inSession {
+			cn, sess = s, bs
+		}
+		cmd := cmdNames[i%len(cmdNames)]
+		if msg := runOn(w, cn, sess, inSession, cmd, scripts[i%len(scripts)], i, hx.FinalCCValue); msg != "" {
+			msg = fmt.Sprintf("command %d on this connection: %s", i, msg)
+			ev.Violation("TestLongConnection", map[string]any{"n": i, "command": cmd, "inSession": inSession}, msg)
+			t.Fatalf("%s", msg)
+		}
+		w.BMC.Intercept = nil
+	}
+	ev.Label("long-connection")
+}
+
 // TestCommandSequences: several commands one after the other on the same
 // connection and the same session, each with its own outcome script; each is
 // held against the contract on its own, whatever the earlier ones ended with
@@ -892,6 +922,6 @@ func TestUDPInSessionLostReply(t *testing.T) {
 }
 
 func TestCoverage(t *testing.T) {
-	ev.RequireLabels(t, 1, "sequence:in-session-command-after-a-transport-failure", "unserialisable-request", "retry-budget-per-command")
+	ev.RequireLabels(t, 1, "sequence:in-session-command-after-a-transport-failure", "unserialisable-request", "retry-budget-per-command", "long-connection")
 	ev.RequireLabels(t, 1, "enumeration-complete", "every-final-code", "handshake-enumeration-complete", "retried:inSession=true", "retried:inSession=false", "retried:handshake", "retried:udp", "retried:udp-undecodable", "udp:in-session-lost-reply")
 }
